@@ -13,17 +13,21 @@ import (
 var verifC14Queries = []struct {
 	q     string
 	opens int
+	bad   bool // a stage the parser accepts and the pipeline builder rejects
 }{
-	{`{a="b"}`, 1},
-	{`{a="b"} |= "x" | json`, 1},
-	{`count_over_time({a="b"}[1m])`, 1},
-	{`sum by (a) (count_over_time({a="b"}[1m]))`, 1},
-	{`topk(1, count_over_time({a="b"}[1m]))`, 1},
-	{`count_over_time({a="b"}[1m]) + count_over_time({a="c"}[1m])`, 2},
-	{`count_over_time({a="b"}[1m]) and count_over_time({a="c"}[1m])`, 2},
-	{`2 * count_over_time({a="b"}[1m])`, 1},
-	{`count_over_time({a="b"}[1m]) > 1`, 1},
-	{`sum(count_over_time({a="b"}[1m])) / sum(bytes_over_time({a="b"}[1m]))`, 2},
+	{`{a="b"}`, 1, false},
+	{`{a="b"} |= "x" | json`, 1, false},
+	{`count_over_time({a="b"}[1m])`, 1, false},
+	{`sum by (a) (count_over_time({a="b"}[1m]))`, 1, false},
+	{`topk(1, count_over_time({a="b"}[1m]))`, 1, false},
+	{`count_over_time({a="b"}[1m]) + count_over_time({a="c"}[1m])`, 2, false},
+	{`count_over_time({a="b"}[1m]) and count_over_time({a="c"}[1m])`, 2, false},
+	{`2 * count_over_time({a="b"}[1m])`, 1, false},
+	{`count_over_time({a="b"}[1m]) > 1`, 1, false},
+	{`sum(count_over_time({a="b"}[1m])) / sum(bytes_over_time({a="b"}[1m]))`, 2, false},
+	{`{a="b"} | line_format "{{ .foo"`, 0, true},
+	{`count_over_time({a="b"} | line_format "{{ .foo" [1m])`, 0, true},
+	{`count_over_time({a="b"}[1m]) + count_over_time({a="c"} | line_format "{{ .foo" [1m])`, 1, true},
 }
 
 // C14-O3: every reader the storage handed out is closed when evalExpr
@@ -66,7 +70,9 @@ func verifC14Close(nq int) {
 		params = EvalParams{Start: otelstorage.Timestamp(t0 + 120e9), End: otelstorage.Timestamp(t0 + 120e9), Step: 0, Limit: 100}
 	}
 	_, err = e.evalExpr(context.Background(), expr, params)
-	if effective {
+	if spec.bad {
+		vsymAssert(err != nil, "a stage that cannot be built is reported as an error")
+	} else if effective {
 		vsymAssert(err != nil, "an injected fault surfaces as an error, never as a shorter result")
 	} else {
 		vsymAssert(err == nil, "evaluation succeeds without faults")
